@@ -2,10 +2,11 @@ CONSTANTS MaxBuild = 3
           MaxProbe = 3
           MaxBatches = 2
           NKeyVals = 2
-          P = 3
+          P = 2
           JoinTypes = {1, 2, 3, 4, 5, 6}
           MissingFile = TRUE
           SilentOuter = FALSE
+          HashAll = TRUE
           EmitMod = 1
 INIT Init
 NEXT Next
